@@ -472,12 +472,20 @@ class Machine:
         elif name == "von_mises":
             dd = max(d, 2)
             A = tensor(rng, (dd, dd), b, bcA, symmetric=True)
+            vm_rtol = 1e-10
+            if dd == 3 and op["seed"] % 3 == 0:
+                # stress of a nearly-incompressible solid under confinement: a hydrostatic part seven
+                # orders above the deviatoric one (the stored numbers carry the deviator to 1e-9 only,
+                # hence the wider tolerance)
+                A = A + 1e7 * MAG[0] * np.eye(3).reshape(3, 3, *([1] * (A.ndim - 2)))
+                vm_rtol = 1e-6
+                self.log.count("hydrostatic-dominated-operand")
             Ai = items(A, 2)
             P = np.zeros(Ai.shape[:-2] + (3, 3))
             P[..., :dd, :dd] = Ai
             dv = P - (np.trace(P, axis1=-2, axis2=-1) / 3)[..., None, None] * np.eye(3)
             ref = np.sqrt(1.5 * np.einsum("...ij,...ij->...", dv, dv))
-            run_variants(lambda out, parallel: fm.equivalent_von_mises(A), [A], ref, 0, supports_out=False)
+            run_variants(lambda out, parallel: fm.equivalent_von_mises(A), [A], ref, 0, supports_out=False, rtol=vm_rtol)
         elif name == "inplane":
             A = tensor(rng, (3, 3), b, bcA)
             v1 = tensor(rng, (3,), b, False)
